@@ -353,6 +353,31 @@ def common_summaries():
         a, b = argv[0], argv[1]
         return [(st, Int(z3.If(z3.UGE(a.bv, b.bv), a.bv, b.bv), a.width, False))]
 
+    @reg(r'^(core::num::<impl )?(u8|u16|u32|u64|usize)>?::(saturating|wrapping|checked)_(add|sub)$')
+    def int_arith_methods(ex, st, fn, argv):
+        mode, opn = re.search(r'(saturating|wrapping|checked)_(add|sub)$', fn).groups()
+        a, b = argv[0], argv[1]
+        w = a.width
+        if opn == 'add':
+            r = a.bv + b.bv
+            ovf = z3.ULT(r, a.bv)
+            sat = z3.BitVecVal((1 << w) - 1, w)
+        else:
+            r = a.bv - b.bv
+            ovf = z3.ULT(a.bv, b.bv)
+            sat = z3.BitVecVal(0, w)
+        if mode == 'wrapping':
+            return [(st, Int(r, w, False))]
+        if mode == 'saturating':
+            return [(st, Int(z3.If(ovf, sat, r), w, False))]
+        out = []
+        for cond, val in ((ovf, mk_option()), (z3.Not(ovf), mk_option(Int(r, w, False)))):
+            s2 = st.fork()
+            s2.pc.append(cond)
+            if ex.feasible(s2):
+                out.append((s2, val))
+        return out
+
     @reg(r'^<(u16|u32|u64|usize|u128) as From<(u8|u16|u32|u64)>>::from$')
     def int_from(ex, st, fn, argv):
         w = INT_TYPES[re.match(r'^<(\w+) as', fn).group(1)][0]
